@@ -91,7 +91,7 @@ pub fn emit_case(c: &Value, id: u64, out: &mut Out) {
         out.line(&e);
     }
     out.line(&json!({"ev":"tree","case":id,"dom":po.tree,"quirks":po.quirks,"parents_ok":po.parents_ok,
-                     "panic": match &po.panic { Some(m) => json!([cps(m)]), None => json!([]) }, "neof": po.neof}));
+                     "panic": match &po.panic { Some(m) => json!([cps(m)]), None => json!([]) }, "neof": po.neof, "ser": po.ser}));
 }
 
 fn rand_soup(r: &mut Rng, maxpieces: usize) -> String {
